@@ -28,26 +28,35 @@ func Typecheck(processes []*Process, assumedFreeNames []Name, globalEnv *GlobalE
 }
 
 func typecheckFunctionsAndProcesses(processes []*Process, assumedFreeNames []Name, globalEnv *GlobalEnvironment, errorChan chan error, doneChan chan bool) {
+	failed := false
 	defer func() {
 		// No error found, notify parent
-		doneChan <- true
+		if !failed {
+			doneChan <- true
+		}
 	}()
 
 	assignTypesToProcessProviders(processes)
 
 	// Start with some preliminary check on the labelled types
 	if err := preliminaryTypesDefinitionsChecks(globalEnv); err != nil {
+		failed = true
 		errorChan <- err
+		return
 	}
 
 	// Check that function definitions are well formed
 	if err := preliminaryFunctionDefinitionsChecks(globalEnv); err != nil {
+		failed = true
 		errorChan <- err
+		return
 	}
 
 	// Check that processes are well formed
 	if err := preliminaryProcessesChecks(processes, assumedFreeNames, globalEnv); err != nil {
+		failed = true
 		errorChan <- err
+		return
 	}
 
 	globalEnv.log(LOGRULEDETAILS, "Preliminary checks ok")
@@ -58,14 +67,18 @@ func typecheckFunctionsAndProcesses(processes []*Process, assumedFreeNames []Nam
 
 	// Typecheck function definitions
 	if err := typecheckFunctionDefinitions(globalEnv); err != nil {
+		failed = true
 		errorChan <- err
+		return
 	}
 
 	globalEnv.log(LOGRULEDETAILS, "Function declarations typecheck ok")
 
 	// Typecheck process definitions
 	if err := typecheckProcesses(processes, assumedFreeNames, globalEnv); err != nil {
+		failed = true
 		errorChan <- err
+		return
 	}
 
 	globalEnv.log(LOGRULEDETAILS, "Process declarations typecheck ok")
